@@ -1,7 +1,8 @@
 import ChessVerif.Props.C17
+import ChessVerif.Props.C17.Basic
 open Chess.Props.C17
-#print axioms step_decreases
-#print axioms visit_fuel
-#print axioms step_oob
 #print axioms book_walk_ok
 #print axioms book_walk_size
+#print axioms Chess.Props.C17.step_decreases
+#print axioms Chess.Props.C17.visit_fuel
+#print axioms Chess.Props.C17.step_oob
